@@ -229,6 +229,58 @@ def synth_bond_mol():
     return m
 
 
+RING_ELEMENTS = [5, 6, 16, 35, 50, 55, 56, 57, 58, 72, 78, 80, 82, 92, 103, 116]     # not Ts, Og: documented identification with Lv
+
+
+def synth_ring_mol():
+    """one four-membered ring X-C-C-C per element X of RING_ELEMENTS (both mask words, the Ba/La border, Lv); all
+    labels set directly (hydrogens known), so that a ring closure can land on an atom of any element"""
+    from chython import MoleculeContainer
+    from chython.containers.bonds import Bond
+    from chython.periodictable import Element
+    m = MoleculeContainer()
+    for x in RING_ELEMENTS:
+        t = [m.add_atom(Element.from_atomic_number(x)(), _skip_calculation=True)] + [m.add_atom('C', _skip_calculation=True) for _ in range(3)]
+        for a, c in zip(t, t[1:] + t[:1]):
+            m.add_bond(a, c, Bond(1), _skip_calculation=True)
+            m._bonds[a][c]._in_ring = True
+    for n, a in m._atoms.items():
+        a._neighbors, a._hybridization, a._implicit_hydrogens, a._explicit_hydrogens = 2, 1, 0, 0
+        a._heteroatoms, a._ring_sizes, a._in_ring = 0, {4}, True
+    m._changed = None
+    m.flush_cache()
+    return m
+
+
+def synth_ring_queries():
+    """the four-ring written from the hetero atom (the closure lands on it), from a carbon (closure lands on carbon), with the
+    hetero atom as AnyMetal / AnyElement / ListElement, closure bond with and without a ring mark"""
+    from chython.containers import QueryContainer
+    from chython.containers.bonds import QueryBond
+    from chython.periodictable import AnyElement, AnyMetal, ListElement, QueryElement
+    out = []
+
+    def ring(name, first, hetero_pos, ring_mark=None):
+        q = QueryContainer(name)
+        for i in range(4):
+            q.add_atom(first() if i == hetero_pos else QueryElement.from_atomic_number(6)())
+        for a, c in ((1, 2), (2, 3), (3, 4)):
+            q.add_bond(a, c, 1)
+        q.add_bond(4, 1, QueryBond(1, in_ring=ring_mark))
+        out.append((name, q))
+    for x in RING_ELEMENTS:
+        if x == 6:
+            continue
+        ring(f'ring from #{x}', lambda: QueryElement.from_atomic_number(x)(), 0)
+        ring(f'ring from C next to #{x}', lambda: QueryElement.from_atomic_number(x)(), 1, True)
+    ring('ring from AnyMetal', lambda: AnyMetal(), 0)
+    ring('ring from AnyElement', lambda: AnyElement(), 0, True)
+    ring('ring to AnyMetal', lambda: AnyMetal(), 3)
+    ring('ring from [Hg,Pb,U]', lambda: ListElement(['Hg', 'Pb', 'U']), 0)
+    ring('ring from [B,Ba,La]', lambda: ListElement(['B', 'Ba', 'La']), 0)
+    return out
+
+
 def synth_bond_queries():
     """every QueryBond (31 order sets x in_ring None/True/False) as the bond of a second atom and as a ring closure"""
     from chython.containers import QueryContainer
@@ -441,7 +493,8 @@ SEED_SMILES = ['C', 'CC', 'CCO', 'C=C', 'C#C', 'C#N', 'c1ccccc1', 'C1CC1', 'C1=C
                'OC(=O)c1ccccc1N', 'CC(C)(C)C', 'C[N+](C)(C)C', '[O-][N+](=O)c1ccccc1', 'CS(=O)(=O)N', 'ClC(Cl)(Cl)Cl', '[13CH4]',
                '[2H]O[2H]', '[CH3]', 'C[Fe](C)(C)(C)(C)C', '[Na+].[Cl-]', 'CC.OO.N', 'C1CCCCC1.C1CCCCC1', 'c1ccncc1', 'C1CC12CC2',
                'C12C3C4C1C5C2C3C45', 'N[C@@H](C)C(=O)O', 'F/C=C/Cl', 'O=C1NC=CC(=O)N1', 'CC(=O)Oc1ccccc1C(O)=O', 'C1CCCCCCCCCCC1',
-               '[La]', '[U](F)(F)(F)(F)(F)F', '[Lv]', 'F[Th](F)(F)F', 'C[Hg]C', 'Cl[Au](Cl)Cl', 'C[Pb](C)(C)C', 'O=[Os](=O)(=O)=O', 'C[Pt](N)(N)Cl', 'C~C'.replace('~', '-'), 'B1OCCO1', 'C1=CC=CC=C1']
+               '[La]', '[U](F)(F)(F)(F)(F)F', '[Lv]', 'F[Th](F)(F)F', '[Hg]1CCCC1', '[Pb]1CCCC1', 'C1CC[Pt]C1', 'O=[Os]1(=O)OCCO1',
+               'C[Pb]1(C)CCCC1', 'C1CC[Hg]CC1', 'C[Sn]1(C)CCCC1', 'Cl[Pt]1(Cl)NCCN1', 'C[Bi]1CCCC1', 'C[Hg]C', 'Cl[Au](Cl)Cl', 'C[Pb](C)(C)C', 'O=[Os](=O)(=O)=O', 'C[Pt](N)(N)Cl', 'C~C'.replace('~', '-'), 'B1OCCO1', 'C1=CC=CC=C1']
 
 SMARTS_LIB = ['C', 'N', 'O', '[#6]', '[C,N]', '[C,N,O;D2]', 'A', '[A]', '[M]', '[M;D6]', '[M;z1]', 'CC', 'C-C', 'C=C', 'C#C', 'C:C', 'C~C',
               'C-,=C', 'C=,:C', 'C!-C', 'C-;@C', 'C-;!@C', 'C~;@C', 'C!:;@C', '[C;D1]', '[C;D2,D3]', '[C;D4]', '[C;h0]', '[C;h1,h2]',
@@ -452,7 +505,8 @@ SMARTS_LIB = ['C', 'N', 'O', '[#6]', '[C,N]', '[C,N,O;D2]', 'A', '[A]', '[M]', '
               '[Na+].[Cl-]', 'C1CC1.C', 'CCO', 'CCCC', 'C-C-C-C-C', 'C(C)C(C)C', '[O,N;h1,h2]', '[C;r6;a]-;!@[C;h1,h2,h3]',
               'C12CC1C2', 'C1CC2CC1CC2', 'C1CC12CC2', 'C[Fe]', 'C[M]', '[M]~[A]', 'F[U]', 'S(=O)(=O)', '[S;D4](=O)(=O)', 'Cl', '[F,Cl,Br,I]',
               'C[N+](C)(C)C', '[A;D1]~[A;D4]', '[C;D1]~[C]~[C;D1]', 'C |^1:0|', '[C;h3] |^1:0|', 'c1ccncc1', 'C:N', 'C:,=N', '[#7;r6]',
-              '[La]', '[Lv]', '[#57,#58]', 'F[Th]', 'C[Hg]', 'Cl[Au]', 'C[Pb]', 'O=[Os]', 'Cl[Pt]', 'F[Th,U]', 'C[Sn,Pb]', '[Hg,Pb]C', 'C[Hg]C', 'B1OCCO1', 'O=C1NC=CC(=O)N1', '[C;r12]', 'C1CCCCCCCCCCC1']
+              '[La]', '[Lv]', '[#57,#58]', 'F[Th]', '[Hg]1CCCC1', 'C1CC[Hg]C1', '[Pb]1CCCC1', 'C1C[Pb]CC1', '[Pt]1CCCC1', '[Pt]1NCCN1', '[Os]1OCCO1',
+              'O1CCO[Os]1', '[Sn]1CCCC1', '[Bi]1CCCC1', '[Hg]1CCCCC1', '[M]1CCCC1', '[M]1~[A]~[A]~[A]~[A]~1', '[Hg,Pb]1CCCC1', '[A]1~[A]~[A]~[A]~[A]~1', 'C[Hg]', 'Cl[Au]', 'C[Pb]', 'O=[Os]', 'Cl[Pt]', 'F[Th,U]', 'C[Sn,Pb]', '[Hg,Pb]C', 'C[Hg]C', 'B1OCCO1', 'O=C1NC=CC(=O)N1', '[C;r12]', 'C1CCCCCCCCCCC1']
 
 
 # inputs on which the former stack arrays of the .pyx (2 * atoms_count cells) were too small (fixed finding stack-overflow, 25e27ca)
@@ -986,6 +1040,8 @@ def corr_pairs(ck, rng, mod, lay):
     sb = synth_bond_mol()
     mols.append(('synthetic-bonds', 'synthetic bond fragments', sb))
     bond_queries = synth_bond_queries()
+    mols.append(('synthetic-rings', 'synthetic hetero rings', synth_ring_mol()))
+    hetero_ring_queries = synth_ring_queries()
     ring_queries = [(s, smarts(s)) for s in RING_QUERIES]
     from chython import smiles as _smiles
     overflow = {mt: [(qt, smarts(qt)) for qt in qts] for mt, qts in OVERFLOW_PAIRS.items()}
@@ -1007,6 +1063,8 @@ def corr_pairs(ck, rng, mod, lay):
                 cq = cycle_query(m, rng)
                 if cq is not None:
                     qs.append(('cycle cut from ' + text + ' ' + repr(sorted(cq._atoms)), cq))
+        if kind == 'synthetic-rings':
+            qs = hetero_ring_queries
         if kind == 'synthetic-bonds':
             qs = bond_queries if ck.tier != 'quick' else bond_queries[::2] + bond_queries[1::4]
         if kind == 'corpus':
@@ -1015,7 +1073,7 @@ def corr_pairs(ck, rng, mod, lay):
                 qs.append(('fragment of ' + text, fq))
         rm = rmol_term(m)
         for qtext, q in qs:
-            res, err = component_runs(q, m, rng, mod, full_only=kind in ('synthetic-bonds', 'polycycle', 'overflow'))
+            res, err = component_runs(q, m, rng, mod, full_only=kind in ('synthetic-bonds', 'synthetic-rings', 'polycycle', 'overflow'))
             if res is None:
                 ck.unchecked('encoders raised on a library query / molecule', err, [qtext, text])
                 continue
@@ -1125,6 +1183,17 @@ def check_layout_mol(ck, m, dec, text):
         ck.unchecked('buffer of _cython_compiled_structure does not list the neighbours of every atom in order', text)
 
 
+def replay_code(qtext, text, kw):
+    tail = f'print(list(q.get_mapping(m, **{kw or {}!r}))); print(list(q.get_mapping(m, _cython=False, **{kw or {}!r})))'
+    if text == 'synthetic hetero rings':
+        return REPLAY_PRE + f'q = dict(synth_ring_queries())[{qtext!r}]; m = synth_ring_mol(); ' + tail
+    if text == 'synthetic bond fragments':
+        return REPLAY_PRE + f'q = dict(synth_bond_queries())[{qtext!r}]; m = synth_bond_mol(); ' + tail
+    if qtext.startswith(('fragment', 'cycle cut')) or text.startswith('synthetic'):
+        return None
+    return REPLAY_PRE + f'q = smarts({qtext!r}); m = smiles({text!r}); ' + tail
+
+
 def report_pair(ck, qtext, text, q, m, what, kw=None):
     fast, slow = both_paths(q, m, **(kw or {}))
     if kw is None and not isinstance(fast, str) and as_set(fast) == as_set(slow):
@@ -1139,9 +1208,7 @@ def report_pair(ck, qtext, text, q, m, what, kw=None):
     ck.counterexample(key, f'accelerated and reference matcher disagree: {what}', {'query': qtext, 'molecule': text, 'kwargs': kw or {}},
                       {'accelerated': fast if isinstance(fast, str) else sorted(map(sorted, (d.items() for d in fast)))[:5]},
                       {'reference': sorted(map(sorted, (d.items() for d in slow)))[:5]}, 'q.get_mapping(m) vs q.get_mapping(m, _cython=False)',
-                      replay_py=(REPLAY_PRE + f'q = smarts({qtext!r}); m = smiles({text!r}); '
-                                 f'print(list(q.get_mapping(m, **{kw or {}!r}))); print(list(q.get_mapping(m, _cython=False, **{kw or {}!r})))')
-                      if not qtext.startswith(('fragment', 'cycle cut')) and not text.startswith('synthetic') else None)
+                      replay_py=replay_code(qtext, text, kw))
 
 
 # ---------------------------------------------------------------------------------------------------------
